@@ -49,7 +49,7 @@ Definition decode_astring (raw : str) : option str :=
   end.
 
 (** ---- names ---- *)
-Definition canon (n : str) : str := if equal_fold n INBOX then INBOX else n.
+Definition canon (n : str) : str := normalize_name n.
 
 (** every proper prefix of [n] that ends just before a '/' ([pre] = reversed prefix read so far) *)
 Fixpoint prefixes_at_delim (pre s : str) : list str :=
@@ -57,8 +57,17 @@ Fixpoint prefixes_at_delim (pre s : str) : list str :=
   | [] => []
   | c :: s' => (if Ascii.eqb c delim then [rev pre] else []) ++ prefixes_at_delim (c :: pre) s'
   end.
-Definition parents (n : str) : list str :=
-  map canon (filter (fun p => negb (is_nil p)) (prefixes_at_delim [] n)).
+(** the names above [n] that may have to be created: the empty prefix of "/x" is no name, and a
+    case variant of INBOX is INBOX, which always exists *)
+Definition parent_name (p : str) : bool := negb (is_nil p) && negb (equal_fold p INBOX).
+Definition parents (n : str) : list str := filter parent_name (prefixes_at_delim [] n).
+
+(** "Roles" and the names below it are reserved for role mailboxes (LIST shows them, SELECT
+    resolves them): no personal mailbox may be created there *)
+Definition reserved (n : str) : bool := is_role_namespace n.
+
+Fixpoint nodupb (l : list str) : bool :=
+  match l with [] => true | x :: l' => negb (mem_str x l') && nodupb l' end.
 
 Definition is_child (parent n : str) : bool := has_prefix n (parent ++ [delim]).
 
@@ -78,6 +87,7 @@ Definition spec_create (st : store) (n0 : str) : store * res :=
   let n := trim_suffix n0 [delim] in
   if is_nil n then (st, RNo)
   else if str_eqb (canon n) INBOX then (st, RNo)                 (* INBOX always exists *)
+  else if reserved n then (st, RNo)
   else if exists_box (boxes st) n then (st, RNo)
   else (with_boxes st (add_missing (parents n) (boxes st) ++ [new_box n]), ROk).
 
@@ -102,11 +112,14 @@ Definition spec_rename_inbox (st : store) (new : str) : store * res :=
 
 Definition spec_rename (st : store) (old new : str) : store * res :=
   if is_nil old || is_nil new then (st, RBad)
+  else if reserved new then (st, RNo)
   else if str_eqb (canon new) INBOX then (st, RNo)
   else if str_eqb (canon old) INBOX then spec_rename_inbox st new
   else if negb (exists_box (boxes st) old) then (st, RNo)
   else if exists_box (boxes st) new then (st, RNo)
-  else (with_boxes st (map (ren old new) (add_missing (parents new) (boxes st))), ROk).
+  else let bs' := map (ren old new) (add_missing (parents new) (boxes st)) in
+       (* a renaming that would give two mailboxes the same name is refused *)
+       if nodupb (names bs') then (with_boxes st bs', ROk) else (st, RNo).
 
 Definition spec_subscribe (st : store) (n : str) : store * res :=
   if is_nil n then (st, RBad) else (with_subs st (sub_insert (subs st) (canon n)), ROk).
@@ -165,18 +178,7 @@ Fixpoint spec_trace (st : store) (h : list cmd) : list (store * res * list str) 
 Inductive cls :=
 | K_quoted_space        (* a name with white space: the line is split on blanks before unquoting *)
 | K_quoted_escape       (* a quoted name with an escaped dquote or backslash: the escapes are never undone *)
-| K_rename_into_child   (* RENAME a a/b: the moved row is selected as its own child *)
-| K_rename_leading_slash(* RENAME x /y refused (CREATE /y is accepted) *)
-| K_rename_partial      (* RENAME refused by UNIQUE after parents were created / target subtree occupied *)
-| K_inbox_rename_orphan (* RENAME INBOX a/b does not create a *)
-| K_protected_case      (* DELETE sent refused: protected names compared with EqualFold *)
-| K_inbox_twin          (* inbox/Inbox treated as a name different from INBOX *)
-| K_roles_shadow        (* SELECT Roles/... never looks at the user's own mailboxes *)
-| K_lsub_persists       (* LSUB on an empty list writes five subscriptions *)
-| K_lsub_adds_inbox     (* LSUB shows INBOX although it is not subscribed *)
 .
-
-Definition twin (n : str) : bool := equal_fold n INBOX && negb (str_eqb n INBOX).
 
 Definition arg_class (raw : str) : option cls :=
   match decode_astring raw with
@@ -188,50 +190,8 @@ Definition arg_class (raw : str) : option cls :=
 
 Definition raw_parents (n : str) : list str := prefixes_at_delim [] n.
 
-Definition classify_db (st : store) (c : cmd) : option cls :=
-  let bs := boxes st in
-  match c with
-  | CCreate a =>
-      match decode_astring a with
-      | Some n0 => let n := trim_suffix n0 [delim] in
-                   if negb (is_nil n) && negb (str_eqb (canon n) INBOX) && negb (exists_box bs n) && existsb twin (raw_parents n)
-                   then Some K_inbox_twin else None
-      | None => None end
-  | CDelete a =>
-      match decode_astring a with
-      | Some n =>
-          if negb (exists_box bs n) || str_eqb (canon n) INBOX then None
-          else if negb (existsb (fun b => is_child n (mb_name b)) bs)
-                  && existsb (equal_fold n) protected_names && negb (mem_str n protected_names)
-               then Some K_protected_case else None
-      | None => None end
-  | CRename a b =>
-      match decode_astring a, decode_astring b with
-      | Some old, Some new =>
-          if is_nil old || is_nil new || str_eqb (canon new) INBOX || exists_box bs new then None
-          else if str_eqb (canon old) INBOX then
-            (if existsb (fun p => negb (exists_box bs p)) (parents new) then Some K_inbox_rename_orphan else None)
-          else if negb (exists_box bs old) then None
-          else if existsb twin (raw_parents new) then Some K_inbox_twin
-          else if existsb is_nil (raw_parents new) then Some K_rename_leading_slash
-          else if is_child old new then Some K_rename_into_child
-          else
-            if existsb (fun m => is_child new m) (names (add_missing (parents new) bs)) then Some K_rename_partial
-            else None
-      | _, _ => None end
-  | CSubscribe a | CUnsubscribe a | CStatus a | CAppend a =>
-      match decode_astring a with
-      | Some n => if twin n then Some K_inbox_twin else None
-      | None => None end
-  | CSelect a =>
-      match decode_astring a with
-      | Some n => if has_prefix n (S_ "Roles/") && exists_box bs n then Some K_roles_shadow else None
-      | None => None end
-  | CList => None
-  | CLsub => if is_nil (subs st) then Some K_lsub_persists
-             else if existsb (fun s => equal_fold s INBOX) (subs st) then None
-             else Some K_lsub_adds_inbox
-  end.
+(** after fix wave 3 no class is left that depends on the store *)
+Definition classify_db (st : store) (c : cmd) : option cls := None.
 
 Definition cmd_args (c : cmd) : list str :=
   match c with
